@@ -72,6 +72,10 @@ type runtime struct {
 
 func (rt *runtime) enterScope(scop *scope) {
 	scop.outer = rt.scope
+	if rt.scope == nil {
+		// Nothing is running: a halt noted earlier has left the runtime long ago.
+		rt.halting, rt.haltValue = false, nil
+	}
 	if rt.scope != nil {
 		if rt.stackLimit != 0 && rt.scope.depth+1 >= rt.stackLimit {
 			panic(rt.panicRangeError("Maximum call stack size exceeded"))
